@@ -471,8 +471,8 @@ fn check_set(ctx: &mut Ctx, max_len: usize) {
 
 fn main() {
     let run = Run::from_args("C19");
-    let bound = run.pick(5, 12);
-    let max_len = run.pick(6, 10);
+    let bound = run.pick(5, 20);
+    let max_len = run.pick(6, 14);
     let mut ctx = Ctx::new();
     let replay = run.replay.as_ref().map(|p| {
         load_replay(p).unwrap_or_else(|e| {
